@@ -58,6 +58,14 @@ class UndefVersion(MarkerMixin):
     the metaclass then can check for its presence.
     """
 
+    def __init_subclass__(cls, **kwargs):
+        # also covers plugin groups whose plugins do not use PluginMetaclassMixin
+        super().__init_subclass__(**kwargs)
+        for b in cls.__bases__:
+            if UndefVersion._is_marked(b):
+                msg = f"{cls.__name__}: Cannot inherit from {UndefVersion._unwrap(b)} of unspecified version!"
+                raise TypeError(msg)
+
     @classmethod
     def _mark_class(cls, c):
         # NOTE: we also want to mark nested non-plugins to prevent subclassing
